@@ -11,6 +11,7 @@ set -e
 (cd "$ROOT/harness" && go build -o "$T/verifmon" ./cmd/verifmon)
 (cd "$ROOT/harness" && go build -race -o "$T/verifmon-race" ./cmd/verifmon)
 (cd "$REPO" && go build -o "$T/vegeta" .)
+(cd "$REPO" && go build -race -o "$T/vegeta-race" .)
 if [ -f "$ROOT/probes/main_pkg/zz_verif_probe_test.go" ]; then
   cat >"$T/overlay.json" <<EOT
 {"Replace": {"$REPO/zz_verif_probe_test.go": "$ROOT/probes/main_pkg/zz_verif_probe_test.go"}}
